@@ -9,7 +9,7 @@ run_one() {
   wt=/tmp/seedall_$id; out=/tmp/seedall_out_$id
   git -C /repo worktree remove --force $wt >/dev/null 2>&1; rm -rf $out
   git -C /repo worktree add --detach $wt HEAD -q || { echo "SEED $id worktree-failed"; return; }
-  if ! git -C $wt apply $d/patch.diff 2>/dev/null; then echo "SEED $id patch-does-not-apply"; git -C /repo worktree remove --force $wt; return; fi
+  if ! git -C $wt apply $d/patch.diff 2>/dev/null && ! git -C $wt apply --3way $d/patch.diff 2>/dev/null; then echo "SEED $id patch-does-not-apply"; git -C /repo worktree remove --force $wt; return; fi
   VERIF_NOCROSS=1 VERIF_NOVALIDATE=1 /verif/bin/gosmt check $p --tier quick --repo $wt --out $out --workers 6 > /tmp/seedall_$id.log 2>&1
   rc=$?
   lab=$(grep -A1 "^VIOLATION" /tmp/seedall_$id.log | grep "^  " | head -1 | awk '{print $1, $2}')
